@@ -405,11 +405,16 @@ Definition find_loops (n : node) : option (list path) :=
 (* ------------------------------------------------------------------------- *)
 Definition is_func (n : node) : bool :=
   is_cls "FuncDef" n && match kid1 n "body" with Some b => has_slot "block_items" b | None => false end.
+(* PyCParser._is_empty: `;` or a block of nothing but such statements *)
+Fixpoint is_empty_body (n : node) : bool :=
+  match n with
+  | Node c _ ks => String.eqb c "EmptyStatement" ||
+                   (String.eqb c "Compound" && forallb (fun sk => forallb is_empty_body (snd sk)) ks)
+  end.
 Definition is_loop (n : node) : bool :=
   (is_cls "While" n || is_cls "For" n || is_cls "DoWhile" n) &&
   match kid1 n "stmt" with
-  | Some s => negb (is_cls "EmptyStatement" s) &&
-              negb (is_cls "Compound" s && match kidl s "block_items" with [] => true | _ => false end)
+  | Some s => negb (is_empty_body s)
   | None => false
   end.
 
